@@ -241,7 +241,9 @@ class MIRP:
         """
         if self.abrp is not None:
             return self.abrp
-        self.abrp = ArcBasedRoutingProblem(self.vrptw)
+        # (kept only once it is completely built: a request that raises must
+        # not leave a half-configured object to be returned by the next one)
+        abrp = ArcBasedRoutingProblem(self.vrptw)
         # The only other thing we need to do for arc-based formulation is add
         # time points. This can be tricky; we want as much resolution as possible,
         # but also keep it small
@@ -259,11 +261,12 @@ class MIRP:
         tw_points = set(tw_points) # get unique values
         timepoints = list(tw_points)
         timepoints.sort()
-        self.abrp.add_time_points(timepoints)
+        abrp.add_time_points(timepoints)
 
         if make_feasible:
             high_cost = self.estimate_high_cost()
-            self.abrp.make_feasible(high_cost)
+            abrp.make_feasible(high_cost)
+        self.abrp = abrp
         return self.abrp
 
     def get_path_based(self, make_feasible: bool=True) -> PathBasedRoutingProblem:
@@ -273,7 +276,7 @@ class MIRP:
         """
         if self.pbrp is not None:
             return self.pbrp
-        self.pbrp = PathBasedRoutingProblem(self.vrptw)
+        pbrp = PathBasedRoutingProblem(self.vrptw)
 
         # for reproducibility:
         np.random.seed(0)
@@ -291,10 +294,11 @@ class MIRP:
         for (explore, rep) in zip([0.0, 1.0, np.inf],
                                   [1, int(self.time_horizon), int(10*self.time_horizon)]):
             for _ in range(rep):
-                self.pbrp.add_routes_better(explore, node_costs, time_costs)
+                pbrp.add_routes_better(explore, node_costs, time_costs)
 
         if make_feasible:
-            self.pbrp.make_feasible(high_cost)
+            pbrp.make_feasible(high_cost)
+        self.pbrp = pbrp
         return self.pbrp
 
     def get_sequence_based(self,
@@ -307,17 +311,18 @@ class MIRP:
         """
         if self.sbrp is not None:
             return self.sbrp
-        self.sbrp = SequenceBasedRoutingProblem(self.vrptw, strict)
+        sbrp = SequenceBasedRoutingProblem(self.vrptw, strict)
         max_vehicles = self.vrptw.estimate_max_vehicles()
-        self.sbrp.set_max_vehicles(max_vehicles)
+        sbrp.set_max_vehicles(max_vehicles)
         # Number of moves/stops in a route:
         # estimate from time horizon divided by shortest travel arc, plus entry and exit
         travel_times = [arc.get_travel_time() for arc in self.vrptw.arcs.values()]
         min_travel_time = min(filter(lambda t: t > 0, travel_times))
-        self.sbrp.set_max_sequence_length(int(self.time_horizon/min_travel_time + 2))
+        sbrp.set_max_sequence_length(int(self.time_horizon/min_travel_time + 2))
         if make_feasible:
             high_cost = self.estimate_high_cost()
-            self.sbrp.make_feasible(high_cost)
+            sbrp.make_feasible(high_cost)
+        self.sbrp = sbrp
         return self.sbrp
 
     def __str__(self):
